@@ -192,6 +192,21 @@ fn check_value<S: Settings + std::fmt::Debug>(
             return;
         }
     };
+    check_settings_value::<S>(preset, s1, Some(modified), &key, replay, run_chains, what, p);
+}
+
+/// the round-trip oracles, starting from a settings VALUE (built from JSON or directly in Rust)
+#[allow(clippy::too_many_arguments)]
+fn check_settings_value<S: Settings + std::fmt::Debug>(
+    preset: Preset,
+    s1: S,
+    modified: Option<&Value>,
+    key: &str,
+    replay: Value,
+    run_chains: bool,
+    what: &str,
+    p: &mut Partial,
+) {
     let v1 = match serde_json::to_value(&s1) {
         Ok(v) => v,
         Err(e) => {
@@ -199,7 +214,9 @@ fn check_value<S: Settings + std::fmt::Debug>(
             return;
         }
     };
-    if strip_nulls(&v1) != strip_nulls(modified) {
+    let same_as_input = modified.map(|m| strip_nulls(&v1) == strip_nulls(m)).unwrap_or(true);
+    let modified = modified.unwrap_or(&v1);
+    if !same_as_input {
         p.violation(
             format!("C19/field-changed-by-round-trip/{key}"),
             format!("serialised {v1} from {modified}"),
@@ -331,6 +348,65 @@ pub fn run(tier: Tier, _replay: Option<String>) -> i32 {
     jobs_for(Preset::LowRankMclmc, nuts_rs::LowRankMclmcSettings::default(), tier, &mut jobs, &mut p0);
     jobs_for(Preset::FlowMclmc, nuts_rs::FlowMclmcSettings::default(), tier, &mut jobs, &mut p0);
     report.merge(p0);
+    // settings values built in Rust (not through JSON): every variant of every enum-typed field,
+    // None / Some for the optional ones - a value the (de)serialiser cannot express would never be
+    // reached by substituting JSON leaves
+    {
+        use nuts_rs::{KineticEnergyKind as K, MclmcTrajectoryKind as T, StepSizeAdaptMethod as M};
+        let mut p = Partial::new();
+        let methods = [M::DualAverage, M::Adam, M::Fixed(0.25)];
+        macro_rules! nuts_variants {
+            ($preset:expr, $ty:ty) => {
+                for m in methods {
+                    for k in [K::Euclidean, K::ExactNormal] {
+                        for jit in [None, Some(0.05)] {
+                            for tt in [None, Some(1.5)] {
+                                let mut s = <$ty>::default();
+                                s.adapt_options.step_size_settings.adapt_options.method = m;
+                                s.adapt_options.step_size_settings.jitter = jit;
+                                s.trajectory_kind = k;
+                                s.target_integration_time = tt;
+                                let what = format!("rust-value/method={m:?}/kind={k:?}/jitter={jit:?}/time={tt:?}");
+                                p.evaluations += 1;
+                                let key = format!("{:?}/{what}", $preset);
+                                check_settings_value::<$ty>($preset, s, None, &key, json!({"preset": format!("{:?}", $preset), "rust_value": what}), true, &what, &mut p);
+                            }
+                        }
+                    }
+                }
+            };
+        }
+        macro_rules! mclmc_variants {
+            ($preset:expr, $ty:ty) => {
+                for m in methods {
+                    for k in [T::Euclidean, T::Microcanonical, T::EuclideanEarlyThenMicrocanonical] {
+                        for jit in [None, Some(0.05)] {
+                            for dynamic in [false, true] {
+                                let mut s = <$ty>::default();
+                                s.adapt_options.step_size_settings.adapt_options.method = m;
+                                s.adapt_options.step_size_settings.jitter = jit;
+                                s.trajectory_kind = k;
+                                s.dynamic_step_size = dynamic;
+                                let what = format!("rust-value/method={m:?}/kind={k:?}/jitter={jit:?}/dynamic={dynamic}");
+                                p.evaluations += 1;
+                                let key = format!("{:?}/{what}", $preset);
+                                // (chains only where the step size cannot collapse: see C06)
+                                let chains = !matches!(m, M::DualAverage | M::Adam) || $preset != Preset::FlowMclmc;
+                                check_settings_value::<$ty>($preset, s, None, &key, json!({"preset": format!("{:?}", $preset), "rust_value": what}), chains, &what, &mut p);
+                            }
+                        }
+                    }
+                }
+            };
+        }
+        nuts_variants!(Preset::DiagNuts, nuts_rs::DiagNutsSettings);
+        nuts_variants!(Preset::LowRankNuts, nuts_rs::LowRankNutsSettings);
+        nuts_variants!(Preset::FlowNuts, nuts_rs::FlowNutsSettings);
+        mclmc_variants!(Preset::DiagMclmc, nuts_rs::DiagMclmcSettings);
+        mclmc_variants!(Preset::LowRankMclmc, nuts_rs::LowRankMclmcSettings);
+        mclmc_variants!(Preset::FlowMclmc, nuts_rs::FlowMclmcSettings);
+        report.merge(p);
+    }
     report.bounds = json!({"jobs": jobs.len()});
     mc_core::par_for_each(&jobs, |_, j| {
         let mut p = Partial::new();
